@@ -12,7 +12,7 @@ from mc.props import kcommon
 ALPHA_SQLITE = ("ins1", "bulk2", "bulk49", "bulk50", "bulk51", "mix", "ups", "rep", "repl", "del", "get", "get_id", "count", "mkB2", "insB2", "updB2", "delB2", "updB1", "clock+11", "delB2x", "updB2x", "staleB2bulk")
 ALPHA_PEEWEE = ("ins1", "bulk2", "bulk51", "mix", "ups", "ups2", "rep", "repl", "del", "delx", "get", "mkB2", "insB2", "updB2", "delB2", "updB1", "delB2x", "updB2x", "staleB2bulk")
 # equivalent-class duplicates left to the thorough tier (a second read flavour, a second bucket-update target)
-QUICK_DROPS = ("get_id", "count", "updB2", "updB2x", "bulk49")
+QUICK_DROPS = ("get_id", "count", "updB2", "bulk49")
 BOUNDS = {
     "fault_ops": "delete/update of an absent bucket and a bulk insert through a stale handle of a deleted bucket must raise, change nothing, and leave later operations as durable as before",
     "quick": {"sqlite": [o for o in ALPHA_SQLITE if o not in QUICK_DROPS], "peewee": list(ALPHA_PEEWEE), "initial_state": "bucket B1 with 2 single-inserted events, flushed", "deletes": "a second sqlite configuration starts from 70 single-inserted events and explores delete/insert/read only, so that > 64 buffered deletions are reachable"},
